@@ -143,6 +143,7 @@ class Sim:
             if "accepted_at" not in c:
                 c["accepted_at"] = now
                 c["opened"] = now
+                c["last_io"] = now  # the time spent in the listen queue is not idle time (and must not leak into the state key)
             busy = ch is not None and bool(ch.requests)
             if busy:
                 if ch.will_close:
@@ -182,16 +183,18 @@ class Sim:
                 parts.append(("closed",))
                 continue
             if ch is None:
-                parts.append(("backlog", c["sent"], bool(c.get("closing")), len(sock.inq)))
+                parts.append(("backlog", c["sent"], bool(c.get("closing")), bytes(sock.inq), sock.window))
                 continue
             parts.append((
-                "open", c["sent"], bool(c.get("closing")), len(ch.requests), ch.request is not None, ch.will_close, ch.close_when_flushed, ch.total_outbufs_len, sock.window,
+                "open", c["sent"], bool(c.get("closing")), tuple(r.headers.get("CONNECTION", "") for r in ch.requests), bytes(sock.inq), ch.request is not None, ch.will_close, ch.close_when_flushed, ch.total_outbufs_len, sock.window,
                 min(int(now - ch.last_activity), cap), min(int(now - c["last_io"]), cap), min(int(now - c.get("busy_at", -10 ** 9)), cap), len(sock.inq),
             ))
         nc = env.server.next_channel_cleanup - now
         s2 = getattr(self, "server2", None)
         extra = (s2.in_connection_overflow, max(min(int(s2.next_channel_cleanup - now), cap), -1), tuple(len(l.backlog) for l in self.listeners)) if s2 is not None else ()
-        return (tuple(parts), len(env.map), env.server.in_connection_overflow, max(min(int(nc), cap), -1), len(env.disp.queue), extra)
+        # whose task is next matters (the finish event runs the head of the dispatcher queue)
+        order = tuple(next((i for i, c in enumerate(self.conns) if c["conn"].ch is t), -1) for t in env.disp.queue)
+        return (tuple(parts), len(env.map), env.server.in_connection_overflow, max(min(int(nc), cap), -1), order, extra)
 
     def close(self):
         self.env.close()
@@ -239,8 +242,25 @@ def _expand(args):
     return out
 
 
-def bfs(run, cfg, depth, pool, rnd):
+def _succ_keys(args):
+    """successor keys of one history under every event (for the merge-soundness probe)"""
+    cfg, h = args
+    ok, _, _, nconn = replay_history(cfg, h)
+    out = {}
+    for ev in alphabet(cfg, min(nconn, cfg["maxconn"])):
+        if ev[0] == "connect" and nconn >= cfg["maxconn"]:
+            continue
+        ok2, key, _, _ = replay_history(cfg, h + (ev,))
+        out[ev] = key if ok2 else None
+    return h, out
+
+
+PROBE_DEPTH = 4
+
+
+def bfs(run, cfg, depth, pool, rnd, probe=False):
     seen = {}
+    second = {}  # another history reaching the same abstract state (first PROBE_DEPTH levels)
     frontier = [()]
     trans = 0
     vio = {}
@@ -248,7 +268,7 @@ def bfs(run, cfg, depth, pool, rnd):
         rnd.shuffle(frontier)
         chunks = [frontier[i : i + 6] for i in range(0, len(frontier), 6)]
         nxt = []
-        for res in pool.imap_unordered(_expand, [(cfg, c) for c in chunks]):
+        for res in pool.imap(_expand, [(cfg, c) for c in chunks]):  # ordered: the representative history kept per state must not depend on worker timing
             for hh, key, viol in res:
                 trans += 1
                 for k, what in viol:
@@ -257,7 +277,21 @@ def bfs(run, cfg, depth, pool, rnd):
                 if key not in seen:
                     seen[key] = hh
                     nxt.append(hh)
+                elif probe and d < PROBE_DEPTH and key not in second and seen[key] != hh:
+                    second[key] = hh
         frontier = nxt
+    if probe and second:
+        # merge-soundness probe: two histories merged into one state must have the same successor
+        # states under every event (otherwise the key drops something the future depends on)
+        pairs = [(seen[k], second[k]) for k in sorted(second, key=repr)]
+        todo = [(cfg, h) for pr in pairs for h in pr]
+        succ = dict(pool.imap(_succ_keys, todo, chunksize=4))
+        bad = [(a, b) for a, b in pairs if succ[a] != succ[b]]
+        run.cov.setdefault("merge_probe", {})[f"limit={cfg['limit']},listeners={cfg.get('listeners', 1)}"] = {"pairs": len(pairs), "different_futures": len(bad)}
+        if bad:
+            a, b = bad[0]
+            ev = next(e for e in succ[a] if succ[a][e] != succ[b].get(e))
+            run.violation("harness:merge-unsound", f"histories {a} and {b} are merged but differ after {ev}: {succ[a][ev]} vs {succ[b].get(ev)}", {"cfg": cfg, "history": [list(e) for e in a]})
     name = f"limit={cfg['limit']},timeout={cfg['timeout']},cleanup={cfg['cleanup']},listeners={cfg.get('listeners', 1)}"
     run.add(states=len(seen), transitions=trans, traces_validated_against_impl=trans, evaluations=trans, distinct_nontrivial=len(seen))
     run.part(name, depth=depth, states=len(seen), transitions=trans)
@@ -325,7 +359,7 @@ def main(tier, only=None):
         ctx = mp.get_context("fork")
         with ctx.Pool(common.NPROC) as pool:
             for cfg in cfgs:
-                bfs(run, cfg, depth if (cfg["limit"] < 100 and cfg.get("listeners", 1) == 1) else depth - 1, pool, rnd)
+                bfs(run, cfg, depth if (cfg["limit"] < 100 and cfg.get("listeners", 1) == 1) else depth - 1, pool, rnd, probe=(tier == "thorough" or cfg is cfgs[0] or cfg.get("listeners", 1) == 2))
     if not only or only == "e1":
         one = c04.req(1).decode("latin-1")
         # the request is pre-queued; the clock is advanced past the timeout while the application runs
